@@ -22,6 +22,12 @@ class MethodObject:
                 "Replace method with method object refactoring cannot be "
                 "performed on a function that is defined outside the project."
             )
+        if self.resource != resource and project.is_ignored(self.resource):
+            # found through an import; every symlink is ignored, too
+            raise exceptions.RefactoringError(
+                "Replace method with method object refactoring cannot be "
+                "performed on a function that is defined in an ignored resource."
+            )
 
     def get_new_class(self, name):
         body = sourceutils.fix_indentation(
